@@ -65,6 +65,13 @@ Proof.
 Qed.
 Print Assumptions C17_construction_partial.
 
+(* the order clause for the list the MODEL returns (Kahn rounds over the dependency relation the code hands to
+   networkx.topological_sort); the implementation's own order is not modelled and is judged per run by check_topo *)
+Theorem C17_model_order_partial : ∀ L sgs, supergates L = Ok sgs →
+  ∀ i j sgi sgj x, sgs !! i = Some sgi → sgs !! j = Some sgj → x ∈ inputs (c_g sgi) → x ∈ gates (c_g sgj) → j < i.
+Proof. exact supergates_topo. Qed.
+Print Assumptions C17_model_order_partial.
+
 (* ---- witnesses ---- *)
 (* x = and(a,b), y = or(c,d), g = and(x,y), o1 = not(g), o2 = buf(g): five supergates, the shared one found in both cones *)
 Definition ex_shared : circuit := mk_g
